@@ -35,7 +35,12 @@ Programs == {
   Simple(Q("$", <<Child(SName(c_)), Child(SFilter(ETest(QAt(<<Child(SFilter(ECmp("==", At1(a_), OQ(Q("$", <<Child(SName(k_))>>)))))>>))))>>)),
   Simple(Q("$", <<Child(SName(o_)), Child(SFilter(EAnd(ECmp("!=", OKey, OQ(Q("_", <<Child(SName(w_))>>))), ETest(QAt(<<Child(SKeys)>>)))))>>)),
   Simple(Q("$", <<Child(SName(c_)), Child(SFilter(EOr(ENot(ETest(QAt(<<Child(SName(a_))>>))), ECmp(">", OFn("count", <<OQ(QAt(<<Child(SWild)>>))>>), OQ(Q("$", <<Child(SName(k_))>>))))))>>)),
-  Simple(Q("$", <<Child(SName(c_)), Child(SFilter(ETest(Q("^", <<Child(SFilter(ECmp("==", At1(k_), OQ(Q("_", <<Child(SName(v_))>>)))))>>))))>>)) }
+  Simple(Q("$", <<Child(SName(c_)), Child(SFilter(ETest(Q("^", <<Child(SFilter(ECmp("==", At1(k_), OQ(Q("_", <<Child(SName(v_))>>)))))>>))))>>)),
+  \* selector-less operands: the whole text of `$` / `^` is the identifier's spelling
+  Simple(Q("$", <<Child(SName(c_)), Child(SFilter(EAnd(ETest(Q("$", <<>>)), ETest(QAt(<<Child(SName(a_))>>)))))>>)),
+  Simple(Q("$", <<Child(SName(c_)), Child(SFilter(EOr(ETest(Q("^", <<>>)), ETest(QAt(<<Child(SName(a_))>>)))))>>)),
+  \* the current key where a value is expected by a typed function
+  Simple(Q("$", <<Child(SName(o_)), Child(SFilter(ECmp("==", OFn("length", <<OKey>>), OLit(IntV(2)))))>>)) }
 
 Elems == << Obj(<<a_, b_>>, <<IntV(1), IntV(0)>>), Obj(<<a_>>, <<IntV(2)>>), Arr(<<Obj(<<a_>>, <<IntV(1)>>), Obj(<<a_>>, <<IntV(3)>>)>>), Arr(<<IntV(1), IntV(2)>>), S(a_), Obj(<<>>, <<>>) >>
 Names == [i \in 1..Len(Elems) |-> <<101>> \o Decimal(i)]
